@@ -109,37 +109,6 @@ Proof.
     apply HN. apply in_progress_cwd.
 Qed.
 
-(* ------------------------------------------------------------------ 2. refutation (F3) *)
-Definition f3_cfg : config := mkCfg 1 100 1 false (Some 1%N) (fun _ => false).
-Definition f3_ls : list label :=
-  [Call 1 [mkMsg 1 None 30 0] None; CloseMark; Assign 0; Timer 0 0; Get 0;
-   Attempt 0 AppliedAcked; Finish 0; Return 0].
-
-Definition f3_msg : msg := mkMsg 1 None 30 0.
-Definition f3_state : state :=
-  mkSt ClWaiting 1
-       [mkPw (1%N, 0%N) true 1 [(mkBatch 0 [f3_msg] 30, None)] None [] None true []]
-       [mkCall 1 [f3_msg] [(0, 0)] (CReturned RNil)]
-       [mkAtt 0 0 (1%N, 0%N) [f3_msg] true None]
-       [((1%N, 0%N), f3_msg)]
-       [([f3_msg], None)]
-       true.
-
-Lemma C09_w_close_refuted_proof : stmt_C09_w_close_refuted.
-Proof.
-  exists f3_cfg, f3_ls, f3_state. split; [|split].
-  - unfold cfg_ok; simpl; lia.
-  - unfold runs. vm_compute. reflexivity.
-  - apply stuckb_sound_proof. vm_compute. reflexivity.
-Qed.
-
-(* hence the full-strength statement is false *)
-Lemma C09_w_close_no_stuck_false : ~ stmt_C09_w_close_no_stuck.
-Proof.
-  intros H. destruct C09_w_close_refuted_proof as [cfg [ls [s [Hc [Hr Hs]]]]].
-  exact (H cfg ls s Hc Hr Hs).
-Qed.
-
 (* ------------------------------------------------------------------ 3. the WaitGroup is exact *)
 Definition pww (pw : pwriter) : nat := (if pw_alive pw then 1 else 0) + length (pw_await pw).
 Fixpoint wsum (l : list pwriter) : nat := match l with [] => 0 | p :: r => pww p + wsum r end.
@@ -327,6 +296,10 @@ Proof.
   - (* Assign *)
     destruct (nth_error (s_calls s) c) as [cl|] eqn:E; [|discriminate].
     destruct (c_ph cl) eqn:Eph; try discriminate.
+    destruct (closed s).
+    { inversion Hst; subst s'. unfold wg_inv, ret_call; simpl. split; [|auto].
+      pose proof (csum_upd _ _ _ (mkCall (c_g cl) (c_msgs cl) (c_refs cl) (CReturned (RErr EClosed))) E) as HC.
+      unfold acw, returned in HC. simpl in HC. rewrite Eph in HC. lia. }
     unfold assign_all in Hst.
     destruct (fold_left (assign_one cfg) (c_msgs cl) (s_pws s, s_wg s, [])) as [[pws wg] refs] eqn:EA.
     inversion Hst; subst s'. apply assign_fold_wg in EA. destruct EA as [EA1 EA2].
@@ -425,7 +398,7 @@ Proof.
   rewrite active_csum, <- Nat.add_assoc, live_wsum. exact H.
 Qed.
 
-(* ------------------------------------------------------------------ 4. no stuck Close without F3 *)
+(* ------------------------------------------------------------------ 4. Close is never stuck *)
 Definition pw_wf (pw : pwriter) : Prop :=
   (forall k, k < pw_nb pw -> In k (map b_k (pw_all pw))) /\
   (forall b, pw_curr pw = Some b ->
@@ -651,17 +624,17 @@ Qed.
 
 Definition cl_inv (s : state) : Prop :=
   Forall pw_wf (s_pws s) /\
-  (s_late s = false -> closed s = true -> Forall (fun pw => pw_open pw = false) (s_pws s)) /\
+  (closed s = true -> Forall (fun pw => pw_open pw = false) (s_pws s)) /\
   refs_ok (s_pws s) (s_calls s).
 
 Lemma cl_inv_upd : forall s p pw pw' wg j lg cp,
   cl_inv s -> nth_error (s_pws s) p = Some pw ->
   pw_wf pw' -> pw_open pw' = pw_open pw -> pw_nb pw <= pw_nb pw' ->
-  cl_inv (mkSt (s_close s) wg (upd (s_pws s) p pw') (s_calls s) j lg cp (s_late s)).
+  cl_inv (mkSt (s_close s) wg (upd (s_pws s) p pw') (s_calls s) j lg cp).
 Proof.
   intros s p pw pw' wg j lg cp [I1 [I2 I3]] E W Ho Hn. unfold cl_inv; simpl. split; [|split].
   - apply Forall_upd; auto.
-  - intros HL HC. specialize (I2 HL HC). apply Forall_upd; auto.
+  - intros HC. specialize (I2 HC). apply Forall_upd; auto.
     rewrite Ho. apply (Forall_nth _ _ _ _ _ I2 E).
   - eapply refs_ok_mono; [|exact I3]. eapply pws_le_upd; eauto.
 Qed.
@@ -686,13 +659,16 @@ Proof.
     destruct I as [I1 [I2 I3]].
     destruct (nth_error (s_calls s) c) as [cl|] eqn:E; [|discriminate].
     destruct (c_ph cl) eqn:Eph; try discriminate.
+    destruct (closed s) eqn:Ecl.
+    { inversion Hst; subst s'. unfold cl_inv, ret_call; simpl.
+      split; [auto|split; [intros _; apply I2; reflexivity|]]. apply Forall_upd; auto. simpl.
+      apply (Forall_nth _ _ _ _ _ I3 E). }
     unfold assign_all in Hst.
     destruct (fold_left (assign_one cfg) (c_msgs cl) (s_pws s, s_wg s, [])) as [[pws wg] refs] eqn:EA.
     inversion Hst; subst s'; clear Hst.
     destruct (assign_fold_wf _ _ _ _ _ _ _ _ EA I1) as [Q1 [Q2 Q3]].
     unfold cl_inv; simpl. split; [auto|split].
-    + intros HL HC. apply orb_false_iff in HL. destruct HL as [_ HL].
-      unfold closed in *. simpl in HC. congruence.
+    + intros HC. unfold closed in *. simpl in HC. congruence.
     + unfold refs_ok. apply Forall_upd.
       * apply (refs_ok_mono _ _ _ Q2 I3).
       * simpl. apply Q3. constructor.
@@ -701,7 +677,7 @@ Proof.
     destruct (existsb (Nat.eqb k) (pw_await pw)) eqn:Ex; [|discriminate].
     inversion Hst; subst s'; clear Hst. unfold with_pw_done.
     change (cl_inv (mkSt (s_close s) (pred (s_wg s)) (upd (s_pws s) p (timer_pw pw k)) (s_calls s)
-                         (s_journal s) (s_log s) (s_compl s) (s_late s))).
+                         (s_journal s) (s_log s) (s_compl s))).
     eapply cl_inv_upd; eauto.
     + apply timer_wf. destruct I as [I1 _]. apply (Forall_nth _ _ _ _ _ I1 E).
     + apply timer_open.
@@ -773,7 +749,7 @@ Proof.
     split; [|split].
     + apply Forall_forall. intros x Hx. apply in_map_iff in Hx. destruct Hx as [y [<- Hy]].
       apply close_pw_wf. rewrite Forall_forall in I1. auto.
-    + intros _ _. apply Forall_forall. intros x Hx. apply in_map_iff in Hx.
+    + intros _. apply Forall_forall. intros x Hx. apply in_map_iff in Hx.
       destruct Hx as [y [<- Hy]]. apply close_pw_open.
     + eapply refs_ok_mono; [apply pws_le_map_close|exact I3].
   - (* CloseWaitDone *)
@@ -841,13 +817,13 @@ Proof.
   rewrite IH by auto. unfold pww. rewrite Q1, Q2. reflexivity.
 Qed.
 
-Lemma C09_w_close_no_stuck_partial_proof : stmt_C09_w_close_no_stuck_partial.
+Lemma C09_w_close_no_stuck_proof : stmt_C09_w_close_no_stuck.
 Proof.
-  unfold stmt_C09_w_close_no_stuck_partial. intros cfg ls s Hr HL HC.
+  unfold stmt_C09_w_close_no_stuck. intros cfg ls s Hr HC.
   destruct (wg_inv_runs _ _ _ Hr) as [Hwg Hok].
   destruct (cl_inv_runs _ _ _ Hr) as [I1 [I2 I3]].
   assert (Hcl : closed s = true) by (unfold closed; rewrite HC; reflexivity).
-  specialize (I2 HL Hcl).
+  specialize (I2 Hcl).
   (* (i) a live awaitBatch goroutine *)
   destruct (ex_or_all _ (fun pw => match pw_await pw with [] => false | _ => true end) (s_pws s))
     as [[p [pw [E Hf]]]|NoAw].
@@ -871,8 +847,7 @@ Proof.
   destruct (ex_or_all _ (fun c => match c_ph c with CEntered => true | _ => false end) (s_calls s))
     as [[c [cl [E Hf]]]|NoEnt].
   { exists (Assign c). split; [reflexivity|]. unfold step. rewrite E.
-    destruct (c_ph cl); try discriminate.
-    destruct (assign_all cfg (s_pws s) (s_wg s) (c_msgs cl)) as [[pws wg] refs]. discriminate. }
+    destruct (c_ph cl); try discriminate. rewrite Hcl. discriminate. }
   (* (iv) a waiting call *)
   destruct (ex_or_all _ (fun c => match c_ph c with CWaiting => true | _ => false end) (s_calls s))
     as [[c [cl [E Hf]]]|NoWait].
@@ -889,6 +864,13 @@ Proof.
     rewrite Forall_forall in *. intros c0 Hin. specialize (NoEnt c0 Hin). specialize (NoWait c0 Hin).
     simpl in *. unfold returned. destruct (c_ph c0); try discriminate; reflexivity. }
   rewrite H0. discriminate.
+Qed.
+
+Lemma C09_w_close_never_stuck_proof : stmt_C09_w_close_never_stuck.
+Proof.
+  unfold stmt_C09_w_close_never_stuck. intros cfg ls s Hr [HC Hst].
+  destruct (C09_w_close_no_stuck_proof cfg ls s Hr HC) as [l [Hl Hen]].
+  apply Hen. apply Hst. exact Hl.
 Qed.
 
 (* ------------------------------------------------------------------ 6. after Close returned (partial) *)
@@ -918,6 +900,7 @@ Proof.
       inversion Hst; subst s'; simpl; auto; intros HC; rewrite HC in Ecl; discriminate.
   - destruct (nth_error (s_calls s) c) as [cl|] eqn:E; [|discriminate].
     destruct (c_ph cl) eqn:Eph; try discriminate.
+    destruct (closed s); [inversion Hst; subst s'; simpl; intros HC; rewrite (J HC); reflexivity|].
     destruct (assign_all cfg (s_pws s) (s_wg s) (c_msgs cl)) as [[pws wg] refs].
     inversion Hst; subst s'; simpl. intros HC. specialize (J HC).
     pose proof (csum_ge _ _ _ E) as G. unfold acw, returned in G. rewrite Eph in G. lia.
@@ -956,8 +939,8 @@ Proof.
   - apply ret_inv_step.
 Qed.
 
-(* the first two conjuncts of stmt_C09_w_close_post (they do not even need s_late = false);
-   the third one (every message of an accepted call was completed) is not proved here *)
+(* the first two conjuncts of stmt_C09_w_close_post ;
+   the third one is added in C09_w_close_post_proof below *)
 Lemma C09_w_close_post_partial_proof :
   forall cfg ls s, runs cfg ls s -> s_close s = ClReturned ->
     (forall p pw, nth_error (s_pws s) p = Some pw ->
@@ -1111,6 +1094,9 @@ Proof.
   - (* Assign *)
     destruct (nth_error (s_calls s) c) as [cl|] eqn:E; [|discriminate].
     destruct (c_ph cl) eqn:Eph; try discriminate.
+    destruct (closed s).
+    { inversion Hst; subst s'; clear Hst. unfold mu, ret_call; simpl.
+      cc_upd E. unfold cc in HC. simpl in HC. rewrite Eph in HC. lia. }
     unfold assign_all in Hst.
     destruct (fold_left (assign_one cfg) (c_msgs cl) (s_pws s, s_wg s, [])) as [[pws wg] refs] eqn:EA.
     inversion Hst; subst s'; clear Hst. apply assign_fold_cost in EA.
@@ -1340,7 +1326,7 @@ Qed.
 Lemma post_inv_upd : forall s p pw pw' wg j lg compl',
   post_inv s -> nth_error (s_pws s) p = Some pw ->
   (forall x, pw_has pw x -> pw_has pw' x) -> fin_ok compl' pw' -> incl (s_compl s) compl' ->
-  post_inv (mkSt (s_close s) wg (upd (s_pws s) p pw') (s_calls s) j lg compl' (s_late s)).
+  post_inv (mkSt (s_close s) wg (upd (s_pws s) p pw') (s_calls s) j lg compl').
 Proof.
   intros s p pw pw' wg j lg compl' [P1 P2] E Hh Hf Hi. unfold post_inv; simpl. split.
   - apply Forall_upd; auto. eapply Forall_impl; [|exact P1].
@@ -1369,6 +1355,9 @@ Proof.
     destruct P as [P1 P2].
     destruct (nth_error (s_calls s) c) as [cl|] eqn:E; [|discriminate].
     destruct (c_ph cl) eqn:Eph; try discriminate.
+    destruct (closed s).
+    { inversion Hst; subst s'. unfold post_inv, ret_call; simpl. split; [auto|].
+      apply Forall_upd; auto. right; left. reflexivity. }
     unfold assign_all in Hst.
     destruct (fold_left (assign_one cfg) (c_msgs cl) (s_pws s, s_wg s, [])) as [[pws wg] refs] eqn:EA.
     inversion Hst; subst s'; clear Hst.
@@ -1381,7 +1370,7 @@ Proof.
     destruct (existsb (Nat.eqb k) (pw_await pw)) eqn:Ex; [|discriminate].
     inversion Hst; subst s'; clear Hst. unfold with_pw_done.
     change (post_inv (mkSt (s_close s) (pred (s_wg s)) (upd (s_pws s) p (timer_pw pw k)) (s_calls s)
-                           (s_journal s) (s_log s) (s_compl s) (s_late s))).
+                           (s_journal s) (s_log s) (s_compl s))).
     destruct (timer_has pw k (Forall_nth _ _ _ _ _ I1 E)) as [T1 T2].
     eapply post_inv_upd; eauto; [|apply incl_refl].
     unfold fin_ok. rewrite T2. destruct P as [P1 _]. apply (Forall_nth _ _ _ _ _ P1 E).
@@ -1469,7 +1458,7 @@ Qed.
 
 Lemma C09_w_close_post_proof : stmt_C09_w_close_post.
 Proof.
-  unfold stmt_C09_w_close_post. intros cfg ls s Hr _ HC.
+  unfold stmt_C09_w_close_post. intros cfg ls s Hr HC.
   destruct (C09_w_close_post_partial_proof _ _ _ Hr HC) as [H1 H2].
   split; [exact H1|split; [exact H2|]].
   intros c cl m E Hrej Hin.
